@@ -98,6 +98,10 @@ enum Level {
     Const { after: bool, val: CVal },
     Braces { labelled: bool },
     Import { imp: Imp, block: bool },
+    /// the nested construct followed, in the same statement list, by the invocation of another macro (defined at the
+    /// top of main.asm) whose body defines names of its own that are called like the outer ones (`c1`, `outer`, `fwd`,
+    /// the nest's constants): every invocation has a fresh scope, whatever was invoked before or after it
+    SiblingMacro,
 }
 
 #[derive(Clone, Copy, PartialEq, Eq, Hash, Debug, PartialOrd, Ord)]
@@ -144,6 +148,7 @@ impl Level {
             Level::Const { .. } => 3,
             Level::Braces { .. } => 4,
             Level::Import { .. } => 5,
+            Level::SiblingMacro => 6,
         }
     }
 
@@ -155,6 +160,7 @@ impl Level {
             Level::Const { .. } => "const",
             Level::Braces { .. } => "braces",
             Level::Import { .. } => "import",
+            Level::SiblingMacro => "sibling-macro",
         }
     }
 
@@ -212,6 +218,7 @@ impl Level {
                 },
                 if *block { ",block" } else { "" }
             ),
+            Level::SiblingMacro => "sibling-macro".to_string(),
         }
     }
 }
@@ -277,6 +284,7 @@ fn all_levels() -> Vec<Level> {
             v.push(Level::Import { imp, block });
         }
     }
+    v.push(Level::SiblingMacro);
     v
 }
 
@@ -331,7 +339,7 @@ fn levels_valid(levels: &[Level]) -> bool {
                 while j > 0 {
                     j -= 1;
                     match levels[j] {
-                        Level::If(..) | Level::Const { .. } => continue,
+                        Level::If(..) | Level::Const { .. } | Level::SiblingMacro => continue,
                         Level::Loop(_) => return false,
                         _ => break,
                     }
@@ -349,7 +357,7 @@ fn leaf_valid(levels: &[Level], leaf: Leaf) -> bool {
         // expansions and imported files "a scope", not a block (the implementation defines no
         // `-`/`+` for them), so their by-hand meaning is fixed only directly inside a loop body or a
         // brace block; `.if` and `.const` are transparent.
-        let nearest = levels.iter().rev().find(|l| !matches!(l, Level::If(..) | Level::Const { .. }));
+        let nearest = levels.iter().rev().find(|l| !matches!(l, Level::If(..) | Level::Const { .. } | Level::SiblingMacro));
         return matches!(nearest, Some(Level::Loop(_)) | Some(Level::Braces { .. }));
     }
     let vk = match leaf {
@@ -545,6 +553,25 @@ impl<'n> Builder<'n> {
                 if after {
                     out.push(def);
                 }
+                out
+            }
+            Level::SiblingMacro => {
+                let name = format!("by{}", i);
+                let mut body = vec![konst("c1", num(5)), label("outer"), label("fwd")];
+                for (j, l) in self.nest.levels.iter().enumerate() {
+                    if matches!(l, Level::Const { .. }) {
+                        body.push(konst(&format!("k{}", j), num(6)));
+                    }
+                }
+                body.push(ins("lda", Form::Imm, id("c1")));
+                body.push(ins("jmp", Form::Plain, id("fwd")));
+                self.top.push(Stmt::MacroDef {
+                    name: name.clone(),
+                    params: vec![],
+                    body,
+                });
+                let mut out = child;
+                out.push(Stmt::MacroCall { name, args: vec![] });
                 out
             }
             Level::Braces { labelled } => {
@@ -1423,9 +1450,17 @@ fn run_pair(ctx: &Ctx, isa: &Isa, shared: &Shared, nest: &Nest, counting: bool, 
                 count("equal_bytes");
                 return none;
             }
-            // refinement: two different *valid* fixed points are "ambiguous", not a violation
+            // refinement: two different *valid* fixed points are "ambiguous", not a violation. Several fixed points
+            // come from the size of an instruction depending on a forward reference, i.e. the two images differ in
+            // their layout; with the same layout every address is the same in both and so is everything computed
+            // from addresses - what differs then is a constant or a binding, which the certificate (it reads the
+            // implementation's own symbol table) cannot judge
             let has_import = !prog.files.is_empty();
-            if !has_import {
+            let same_layout = {
+                let ps = segs_of(&p);
+                ps.len() == e.segs.len() && ps.iter().zip(e.segs.iter()).all(|(a, b)| a.0 == b.0 && a.1 == b.1 && a.2.len() == b.2.len())
+            };
+            if !has_import && !same_layout {
                 let cp = certify(isa, &p, &prog.main);
                 let exp_prog = expanded.as_ref().unwrap();
                 let valid = |c: &crate::cert::Cert| c.problems.is_empty() && c.unsupported.is_empty();
